@@ -503,6 +503,14 @@ func (p *Posix) DeleteBucket(_ context.Context, bucket string) error {
 	if err != nil {
 		return fmt.Errorf("remove bucket: %w", err)
 	}
+	// the bucket's settings (ACL, policy, tags, versioning ...) go with
+	// it. A metadata store that keeps them outside of the bucket
+	// directory would otherwise hand them to the next bucket created
+	// under this name
+	err = p.meta.DeleteAttributes(bucket, "")
+	if err != nil {
+		return fmt.Errorf("remove bucket attributes: %w", err)
+	}
 	verifhook.Point("rmbucket.afterRemoveAll")
 	// Remove the bucket from versioning directory
 	if p.versioningEnabled() {
